@@ -241,6 +241,9 @@ func (s *SignedAccumulator) UnmarshalVerify(pk *gabikeys.PublicKey) (*Accumulato
 	if err := signed.UnmarshalVerify(pk.ECDSA, s.Data, msg); err != nil {
 		return nil, err
 	}
+	if msg.Nu == nil {
+		return nil, errors.New("accumulator has no value")
+	}
 	simhook.Yield("SignedAccumulator.UnmarshalVerify:before-store")
 	s.Accumulator = msg
 	s.verifiedWith = pk
